@@ -531,8 +531,8 @@ def check(run, db, tier):
                     return k
                 res = [p for p in it.run(f, kwargs=kw) if p.outcome == 'return']
                 for p in res:
-                    if not explicit and p.cond_is('Q == 1 and out_shape is None', True):
-                        continue
+                    if not explicit and isinstance(p.value, Shaped) and p.value.label == 'array' and not [e for e in p.events if e['kind'] == 'store']:
+                        continue          # the identity path (Q == 1, no shape asked for): the input itself comes back
                     nn = [dom.length(x) for x in names]
                     want = [dom.interp.binop(ast.Sub(), half(dom, nn[2 + k]), half(dom, nn[k]), None) for k in (0, 1)]
                     if mode == 'constant':
